@@ -32,14 +32,18 @@ pub struct GenParams {
     pub ebnf: bool,
     pub comments: bool,
     pub fix_nullable_bodies: bool,
+    /// productivity / reachability repairs (off = wild grammars with all pathologies)
+    pub repair: bool,
+    /// helper-looking non-terminal names (XOpt, XList, XGroup, XSuffix, numeric suffixes)
+    pub hostile_names: bool,
 }
 
 impl GenParams {
     pub fn ll() -> Self {
-        GenParams { max_nt: 5, max_t: 7, max_alts: 3, max_len: 4, max_depth: 2, ll_bias: true, left_rec: false, ebnf: true, comments: true, fix_nullable_bodies: true }
+        GenParams { max_nt: 5, max_t: 7, max_alts: 3, max_len: 4, max_depth: 2, ll_bias: true, left_rec: false, ebnf: true, comments: true, fix_nullable_bodies: true, repair: true, hostile_names: false }
     }
     pub fn lr() -> Self {
-        GenParams { max_nt: 5, max_t: 6, max_alts: 3, max_len: 4, max_depth: 2, ll_bias: true, left_rec: true, ebnf: true, comments: true, fix_nullable_bodies: true }
+        GenParams { max_nt: 5, max_t: 6, max_alts: 3, max_len: 4, max_depth: 2, ll_bias: true, left_rec: true, ebnf: true, comments: true, fix_nullable_bodies: true, repair: true, hostile_names: false }
     }
 }
 
@@ -140,7 +144,7 @@ pub fn grammar(t: &mut Tape, p: &GenParams) -> Grammar {
         let i = t.next(pool.len());
         terms.push(pool.remove(i));
     }
-    let mut g = G { t, p, terms, n_nt };
+    let mut g = G { t: &mut *t, p, terms, n_nt };
     let mut prods = vec![];
     for nt in 0..n_nt {
         let n_alts = 1 + g.t.next(p.max_alts);
@@ -164,9 +168,10 @@ pub fn grammar(t: &mut Tape, p: &GenParams) -> Grammar {
         prods.push(Prod { lhs: NT_NAMES[nt].to_string(), alts });
     }
     let terms = g.terms.clone();
+    drop(g);
     let mut gr = Grammar::new(NT_NAMES[0], prods);
     // repair: reachability
-    loop {
+    while p.repair {
         let mut reach: BTreeSet<String> = [gr.start.clone()].into_iter().collect();
         loop {
             let mut more = BTreeSet::new();
@@ -191,7 +196,7 @@ pub fn grammar(t: &mut Tape, p: &GenParams) -> Grammar {
         alt.push(Factor::n(NT_NAMES[bad]));
     }
     // repair: productivity (after reachability: appended references can make a host unproductive)
-    loop {
+    while p.repair {
         let ig = IGrammar::from(&gr);
         let h = chart::min_heights(&ig);
         let Some(bad) = (0..n_nt).find(|i| h[*i] == usize::MAX) else { break };
@@ -225,11 +230,72 @@ pub fn grammar(t: &mut Tape, p: &GenParams) -> Grammar {
             });
         }
     }
+    if p.hostile_names {
+        hostile_rename(&mut gr, t, n_nt);
+    }
     if p.comments {
         gr.initial.line_comments.push(Lit::raw("//"));
         gr.initial.block_comments.push((Lit::raw("/*"), Lit::raw("*/")));
     }
     gr
+}
+
+pub const HELPER_SUFFIXES: &[&str] = &["Opt", "List", "Group", "Suffix", "Opt0", "List0", "Group0", "Suffix0", "0", "1", "Opt1", "ListGroup", "OptGroup"];
+
+pub fn rename_nt(a: &mut Alts, from: &str, to: &str) {
+    for alt in a.iter_mut() {
+        for f in alt.iter_mut() {
+            match f {
+                Factor::N { name, .. } if name == from => *name = to.to_string(),
+                Factor::Group(x) | Factor::Opt(x) | Factor::Rep(x) => rename_nt(x, from, to),
+                _ => {}
+            }
+        }
+    }
+}
+
+/// renames some non-terminals to names that look like the helpers parol generates
+fn hostile_rename(gr: &mut Grammar, t: &mut Tape, n_nt: usize) {
+    for i in 1..n_nt {
+        if t.next(3) != 0 {
+            continue;
+        }
+        let base = NT_NAMES[t.next(i)].to_string();
+        let base = gr.prods.get(NT_NAMES.iter().position(|n| *n == base).unwrap_or(0)).map(|p| p.lhs.clone()).unwrap_or(base);
+        let new = format!("{base}{}", HELPER_SUFFIXES[t.next(HELPER_SUFFIXES.len())]);
+        if gr.prods.iter().any(|p| p.lhs == new) {
+            continue;
+        }
+        let old = gr.prods[i].lhs.clone();
+        for p in gr.prods.iter_mut() {
+            if p.lhs == old {
+                p.lhs = new.clone();
+            }
+            rename_nt(&mut p.alts, &old, &new);
+        }
+    }
+    // occasionally a reference to an undefined helper-looking name inside a nested construct
+    if t.next(6) == 0 {
+        let host = t.next(gr.prods.len());
+        let name = format!("{}{}", gr.prods[host].lhs, HELPER_SUFFIXES[t.next(4)]);
+        if !gr.prods.iter().any(|p| p.lhs == name) {
+            fn first_nested(a: &mut Alts) -> Option<&mut Alts> {
+                for alt in a.iter_mut() {
+                    for f in alt.iter_mut() {
+                        if let Factor::Group(x) | Factor::Opt(x) | Factor::Rep(x) = f {
+                            return Some(x);
+                        }
+                    }
+                }
+                None
+            }
+            if let Some(x) = first_nested(&mut gr.prods[host].alts) {
+                if let Some(alt) = x.first_mut() {
+                    alt.insert(0, Factor::n(&name));
+                }
+            }
+        }
+    }
 }
 
 pub fn nullable_nts(g: &Grammar) -> BTreeSet<String> {
